@@ -236,6 +236,11 @@ class TCPHiddenServiceEndpoint(object):
             only have Group access. XXX FIXME re-test
         """
 
+        # refuse invalid option-combinations before anything is started
+        cls._validate_options(
+            hidden_service_dir, auth, None, ephemeral, private_key, single_hop,
+        )
+
         from txtorcon.controller import connect
         tor = connect(reactor, control_endpoint)
         tor.addCallback(lambda t: t.get_config())
@@ -289,6 +294,11 @@ class TCPHiddenServiceEndpoint(object):
             :class:`txtorcon.AuthStealth` instance
         """
 
+        # refuse invalid option-combinations before anything is started
+        cls._validate_options(
+            hidden_service_dir, auth, None, ephemeral, private_key, single_hop,
+        )
+
         def progress(*args):
             progress.target(*args)
         tor = get_global_tor_instance(
@@ -330,6 +340,11 @@ class TCPHiddenServiceEndpoint(object):
         tempdirs).
         """
 
+        # refuse invalid option-combinations before anything is started
+        cls._validate_options(
+            hidden_service_dir, auth, None, ephemeral, private_key, single_hop,
+        )
+
         def progress(*args):
             progress.target(*args)
 
@@ -352,6 +367,56 @@ class TCPHiddenServiceEndpoint(object):
         )
         progress.target = r._tor_progress_update
         return r
+
+    @staticmethod
+    def _validate_options(hidden_service_dir, auth, stealth_auth, ephemeral,
+                          private_key, single_hop):
+        """
+        Internal helper. Raises ValueError if the combination of
+        options is invalid. This is used by ``__init__`` and by the
+        factory-methods (which call it *before* they start connecting
+        to, or launching, a Tor).
+
+        :returns: a 2-tuple of the effective `ephemeral` and `auth`
+        """
+        # this supports API backwards-compatibility -- if you didn't
+        # explicitly specify ephemeral=True, but *did* set
+        # hidden_service_dir
+        if ephemeral is None:
+            ephemeral = True
+            if hidden_service_dir is not None:
+                ephemeral = False
+
+        # backwards-compatibility for stealth_auth= kwarg
+        if stealth_auth is not None:
+            log.msg("'stealth_auth' is deprecated; use auth= instead")
+            if auth is not None:
+                raise ValueError(
+                    "Both stealth_auth= and auth= passed; use auth= only for new code"
+                )
+            auth = AuthStealth(stealth_auth)
+
+        if ephemeral and isinstance(auth, AuthStealth):
+            raise ValueError(
+                "'ephemeral=True' onion services don't support 'stealth' auth"
+            )
+
+        if ephemeral and hidden_service_dir is not None:
+            raise ValueError(
+                "Specifying 'hidden_service_dir' is incompatible"
+                " with 'ephemeral=True'"
+            )
+
+        if private_key is not None and not ephemeral:
+            raise ValueError(
+                "'private_key' only understood for ephemeral services"
+            )
+
+        if single_hop and not ephemeral:
+            raise ValueError(
+                "'single_hop=' flag only makes sense for ephemeral onions"
+            )
+        return ephemeral, auth
 
     def __init__(self, reactor, config, public_port,
                  hidden_service_dir=None,
@@ -408,44 +473,10 @@ class TCPHiddenServiceEndpoint(object):
             must be no `SOCKSPort` configured for this to actually work.
         """
 
-        # this supports API backwards-compatibility -- if you didn't
-        # explicitly specify ephemeral=True, but *did* set
-        # hidden_service_dir
-        if ephemeral is None:
-            ephemeral = True
-            if hidden_service_dir is not None:
-                ephemeral = False
-
-        # backwards-compatibility for stealth_auth= kwarg
-        if stealth_auth is not None:
-            log.msg("'stealth_auth' is deprecated; use auth= instead")
-            if auth is not None:
-                raise ValueError(
-                    "Both stealth_auth= and auth= passed; use auth= only for new code"
-                )
-            auth = AuthStealth(stealth_auth)
-            stealth_auth = None
-
-        if ephemeral and isinstance(auth, AuthStealth):
-            raise ValueError(
-                "'ephemeral=True' onion services don't support 'stealth' auth"
-            )
-
-        if ephemeral and hidden_service_dir is not None:
-            raise ValueError(
-                "Specifying 'hidden_service_dir' is incompatible"
-                " with 'ephemeral=True'"
-            )
-
-        if private_key is not None and not ephemeral:
-            raise ValueError(
-                "'private_key' only understood for ephemeral services"
-            )
-
-        if single_hop and not ephemeral:
-            raise ValueError(
-                "'single_hop=' flag only makes sense for ephemeral onions"
-            )
+        ephemeral, auth = self._validate_options(
+            hidden_service_dir, auth, stealth_auth, ephemeral, private_key,
+            single_hop,
+        )
 
         self._reactor = reactor
         self._config = defer.maybeDeferred(lambda: config)
